@@ -47,7 +47,7 @@ theorem coverOf_eq_some (P : Params) (H W : Nat) (s : Surface) (hs : WellPlaced 
 theorem imgOf_normR (P : Params) (H W : Nat) (s : Surface) (hs : WellPlaced P H W s) (r c : Nat)
     (hr : r < H) (hc : c < W) : imgOf P (normR P s r c) = imgOf P (s r c) := by
   unfold normR
-  cases hsh : shadowed P s r c
+  cases hsh : shadowedRaw P s r c
   · simp [imgOf_rasterise]
   · simp only [if_true]
     cases hi : imgOf P (s r c) with
@@ -57,13 +57,13 @@ theorem imgOf_normR (P : Params) (H W : Nat) (s : Surface) (hs : WellPlaced P H 
       rw [hsh] at this; cases this
 
 theorem shadowed_normR (P : Params) (s : Surface) (r : Nat) :
-    ∀ c, shadowed P (normR P s) r c = shadowed P s r c := by
+    ∀ c, shadowedRaw P (normR P s) r c = shadowedRaw P s r c := by
   intro c
   induction c with
   | zero => rfl
   | succ c ih =>
-    simp only [shadowed, ih, normR]
-    cases h : shadowed P s r c
+    simp only [shadowedRaw, ih, normR]
+    cases h : shadowedRaw P s r c
     · simp [isWide_rasterise]
     · simp
 
@@ -79,7 +79,7 @@ theorem display_wp (P : Params) (hP : ParamsOk P) (H W : Nat) (s : Surface) (hs 
     simp [display, displayCell, coverOf_eq_some P H W s hs q (r, c) hq1 hq2 hcov]
   · intro hno
     simp only [display, displayCell, coverOf_eq_none P H W s (r, c) hno, normR]
-    cases hsh : shadowed P s r c
+    cases hsh : shadowedRaw P s r c
     · simp only [Bool.false_eq_true, if_false]
       cases hk : (s r c).kind with
       | chr ch =>
@@ -134,10 +134,10 @@ theorem display_congr_wp (P : Params) (H W : Nat) (s b : Surface) (hs : WellPlac
       simp [normR, this, rasterise_face]
     | none =>
       simp only
-      have e1 : shadowed P b r c = shadowed P s r c := by
+      have e1 : shadowedRaw P b r c = shadowedRaw P s r c := by
         rw [shadowed_congr P b (normR P s) r W (fun c hc => hb r c hr hc) c (by omega), shadowed_normR]
       rw [e1, hb r c hr hc]
-      cases hsh : shadowed P s r c
+      cases hsh : shadowedRaw P s r c
       · simp only [Bool.false_eq_true, if_false, normR, hsh]
         cases hk : (s r c).kind <;> simp [rasterise, hk]
       · simp
